@@ -849,7 +849,12 @@ def main(argv):
     seed = int(os.environ.get("VERIF_SEED", "1") or 1)
     try:
         rc = run_property(a.property, a.tier, seed)
-    except Undecided as e:
+    except Exception as e:
+        if not isinstance(e, Undecided):
+            # a defect of the machinery itself (extractor crash, unexpected tool output) must never look like a violation
+            import traceback
+            e = Undecided("internal error of the checker (machinery defect, not a verdict): " + repr(e) + " :: "
+                          + traceback.format_exc().strip().split("\n")[-3].strip()[:200])
         # the proof could not be attempted / completed.  A concrete failing input on the real code is still a
         # definite violation, so look for one before giving up (a miss leaves the verdict undecided, never OK).
         hit = last_resort_replay(a.property, a.tier, seed, str(e))
@@ -863,4 +868,11 @@ def main(argv):
 
 
 if __name__ == "__main__":
-    sys.exit(main(sys.argv[1:]))
+    try:
+        _rc = main(sys.argv[1:])
+    except SystemExit:
+        raise
+    except BaseException as _e:      # never let a crash of the checker exit with the violation code
+        print(f"UNDECIDED reason=internal error of the checker: {_e!r}", flush=True)
+        _rc = 2
+    sys.exit(_rc)
